@@ -127,7 +127,14 @@ def classes():
                     o = cands[0]
                 else:
                     o = rng.choice(cands)
-                return [Cancel(order=o)]
+                sent = self.__dict__.setdefault("sent_cancels", [])
+                if self.program.get("resend_cancels") and sent and rng.random() < 0.35:
+                    # a kill switch kept per order and sent again (the same Cancel object a second time)
+                    taps.hits["same_cancel_object_sent_again"] += 1
+                    return [rng.choice(sent)]
+                c = Cancel(order=o)
+                sent.append(c)
+                return [c]
             # ---- hostile actions: the system must refuse these -----------
             if a == "resubmit":
                 cands = [o for o in self.my_orders if o.order_id is not None]
@@ -583,6 +590,8 @@ def gen_program(rng, style="mixed", hostile=None):
     prog = {"p_act": rng.choice([0.3, 0.6, 0.9, 1.0]), "max_batch": rng.choice([1, 1, 2, 4]), "actions": acts}
     if rng.random() < 0.1:
         prog["scalars"] = rng.choice(["numpy", "int"])
+    if rng.random() < 0.15:
+        prog["resend_cancels"] = True
     if hostile:
         prog["actions"].append([hostile.get("weight", 2), {"a": hostile["a"]}])
     return prog
@@ -737,6 +746,8 @@ def gen_accounting_case(rng, tier, hostile=None, hft=None, hostile_hft=False):
             pr["scalars"] = rng.choice(["numpy", "int"])
         if rng.random() < 0.1:
             pr["rebind"] = rng.randint(2, 12)
+        if rng.random() < 0.2:
+            pr["resend_cancels"] = True
         return pr
 
     for g in range(rng.choice([1, 2, 3])):
